@@ -14,10 +14,12 @@ STALL = True
 TIMEOUT_PER_CASE = 180.0
 TECHNIQUE = ('runtime monitoring: the whole operator runs against the fake API server on a virtual clock; every daemon/timer invocation is recorded with the identity of '
              'its stop flag (= the spawned instance), the instants the flag and the cancellations were seen, and the stop reasons; an offline checker compares the '
-             'instance intervals with what the operator was given (listings, watch events, pause toggles, stop request); a stall sanitizer (sys.monitoring) watches the loop')
+             'instance intervals with what the operator was given (listings, watch events, pause toggles, stop request); a stall sanitizer (sys.monitoring) watches the loop'
+             '; handler threads of synchronous daemons are gated so that virtual time moves only at thread quiescence')
 LEVEL_TEXT = ('Held on the explored histories: 1-3 daemons/timers per object (obeying, lingering, flag-ignoring, cancellation-swallowing, self-exiting daemons; interval, idle, '
               'interval+idle and one-shot timers), label/field filter toggles at gaps from 0 to 8 s, graceful deletions, deletions before the finalizer exists and after its '
-              'forced removal, pauses/resumes through a foreign peering record, operator exit; cancellation_backoff/timeout in {None, 1, 2.5/3}.')
+              'forced removal, pauses/resumes through a foreign peering record, operator exit; cancellation_backoff/timeout in {None, 1, 2.5/3}.'
+              ' A fifth of the daemons/timers are synchronous functions run by kopf in real threads (thread-side stop flag) under a thread-aware virtual clock.')
 LEVEL_NOTE = ('"Started when matching" and "asked to stop" are judged only at events that stay the latest one for the object for a batch window (events collapsed by batching are '
               'not processed individually by design). Timers with idle= are checked for stopping only (their start is C10).')
 RULE = ('random handler sets x random histories; non-trivial = at least one instance was stopped by a cause other than operator exit; distinct = hash of the per-instance '
